@@ -9,9 +9,23 @@ for d in sorted(glob.glob("/verif/seeded/*")):
         continue
     ok = m.get("confirmed", {})
     conf = "yes" if all(ok.get(k) for k in ("existing_tests_pass_with_change", "demo_fails_with_change", "demo_passes_without_change")) else "partly: %s" % ok
-    rows.append((os.path.basename(d), m.get("property", ""), (m.get("summary", "") or "").replace("|", "/")[:230], (m.get("needs", "") or "").replace("|", "/")[:200],
+    rows.append((os.path.basename(d), m.get("property", ""), (m.get("summary", "") or "").replace("|", "/")[:170], (m.get("needs", "") or "").replace("|", "/")[:150],
                  conf, ", ".join(m.get("caught_by", [])) or "MISSED"))
-print("| seeded change | targets | what was changed | needs | confirmed | quick checks that report it |")
-print("|---|---|---|---|---|---|")
+import sys
+out = ["| seeded change | targets | what was changed (truncated; full text in seeded/<name>/meta.json) | needs | confirmed | quick checks that report it |", "|---|---|---|---|---|---|"]
 for r in rows:
-    print("| `%s` | %s | %s | %s | %s | %s |" % r)
+    out.append("| `%s` | %s | %s | %s | %s | %s |" % r)
+out.append("")
+out.append("%d seeded changes, %d reported by the check of the property they target, %d missed by every check run." % (
+    len(rows), sum(1 for r in rows if r[1] in r[5].split(", ")), sum(1 for r in rows if r[5] == "MISSED")))
+text = "\n".join(out)
+if "--update" in sys.argv:
+    B, E = "<!-- SEEDED_TABLE_BEGIN -->", "<!-- SEEDED_TABLE_END -->"
+    d = open("/verif/DESIGN.md").read()
+    if "SEEDED_TABLE_PLACEHOLDER" in d:
+        d = d.replace("SEEDED_TABLE_PLACEHOLDER", B + "\n" + E)
+    a, b = d.index(B), d.index(E)
+    d = d[:a] + B + "\n" + text + "\n" + d[b:]
+    open("/verif/DESIGN.md", "w").write(d)
+else:
+    print(text)
